@@ -393,9 +393,9 @@ tp_task_restart(tp_task_p tptask) {
 	}
 	error = tpt_ev_add_args2(tptask->tpt, tptask->event,
 	    tptask->event_flags, &tptask->tp_data);
-	if (0 != error)	{ /* Error, remove timer. */
+	if (0 != error && 0 != tptask->timeout) { /* Error, remove timer. */
 		debugd_break();
-		tpt_ev_del_args1(TP_EV_TIMER, &tptask->tp_data);
+		tpt_ev_del_args1(TP_EV_TIMER, &tptask->tp_timer);
 	}
 	return (error);
 }
@@ -426,9 +426,9 @@ tp_task_enable(tp_task_p tptask, int enable) {
 			return (error);
 	}
 	error = tpt_ev_enable_args1(enable, tptask->event, &tptask->tp_data);
-	if (0 != error) {
+	if (0 != error && 0 != tptask->timeout) { /* Error, disable timer. */
 		debugd_break();
-		tpt_ev_enable_args1(0, TP_EV_TIMER, &tptask->tp_data);
+		tpt_ev_enable_args1(0, TP_EV_TIMER, &tptask->tp_timer);
 	}
 	return (error);
 }
